@@ -96,6 +96,9 @@ type Scenario struct {
 	StopTimeoutMS  int      `json:"stop_timeout_ms"`
 	Delays         []Delay  `json:"delays,omitempty"`
 	MicroTaskLimit int      `json:"microtask_limit,omitempty"`
+	// NoReports: no error reporting channel is installed (and reporting to stderr is off, as always): panics are still
+	// contained, returned as panic errors with value and stack trace, and remembered as the last reported error.
+	NoReports bool `json:"no_reports,omitempty"`
 }
 
 // Event is one entry of the child's log.
